@@ -1,6 +1,7 @@
 package misc
 
 import (
+	"encoding/json"
 	"fmt"
 	"net"
 	"sort"
@@ -140,6 +141,8 @@ type c47Ctx struct {
 	evals    int64
 	distinct int64
 	seen     map[string]bool
+	// one example per filter API of a path on which the per-hop and the per-interface reading of an ACL differ
+	readingEx map[string]c47Example
 }
 
 func (c *c47Ctx) finding(key string, ex c47Example) {
@@ -340,17 +343,7 @@ func (c *c47Ctx) familyH() {
 	lens := []int{2, 3}
 	set := mkSet("H", c47Paths(ias, []uint64{1, 2, 12}, lens))
 	c.r.Extra["H_paths"] = len(set.paths)
-	var preds []*c47Pred
-	ifForms := [][]uint64{nil, {0}, {1}, {2}, {12}, {0, 0}, {1, 0}, {0, 1}, {1, 2}, {2, 1}, {0, 2}, {2, 0}, {12, 1}, {1, 12}}
-	asTexts := []string{"0", "64512", "ff00:0:110", "ff00:0:11", "FF00:0:110", "fF00:0:110", "0:0:fc00", "0:0:FC00"}
-	for _, isd := range []uint64{0, 1, 2, 12} {
-		preds = append(preds, mkPred(isd, ""))
-		for _, as := range asTexts {
-			for _, f := range ifForms {
-				preds = append(preds, mkPred(isd, as, f...))
-			}
-		}
-	}
+	preds := c47PredAlphabet()
 	c.r.Extra["H_predicates"] = len(preds)
 	any := &c47Node{kind: kStar, l: &c47Node{kind: kHop, pred: mkPred(0, "")}}
 	contexts := []func(h *c47Node) *c47Node{
@@ -481,54 +474,119 @@ func c47Orders(set *c47Set) [][]int {
 	return [][]int{fwd, append(rev, fwd...)}
 }
 
-// checkFilter compares the output of a filter for one input list with the expected kept indices (in input order).
-func (c *c47Ctx) checkFilter(api, desc string, set *c47Set, order []int, out []snet.Path, keep func(i int) bool, t *c47Tally) {
-	var want []snet.Path
-	for _, i := range order {
-		if keep(i) {
-			want = append(want, set.snet[i])
+// c47Want: which positions of an input list must be kept, under each reading of the ACL unit.
+type c47Want [2][]bool
+
+func equalPaths(a, b []snet.Path) bool {
+	if len(a) != len(b) {
+		return false
+	}
+	for i := range a {
+		if a[i] != b[i] {
+			return false
+		}
+	}
+	return true
+}
+
+// checkFilter compares the output of a filter for one input list with the expected output (kept elements, in input order,
+// pointer identity) under the per-hop and the per-interface reading; the output must equal one of them.
+func (c *c47Ctx) checkFilter(api, desc string, set *c47Set, order []int, out []snet.Path, want c47Want, t *c47Tally) {
+	var lists [2][]snet.Path
+	differ := int64(0)
+	for pos, i := range order {
+		for r := 0; r < 2; r++ {
+			if want[r][pos] {
+				lists[r] = append(lists[r], set.snet[i])
+			}
+		}
+		if want[0][pos] != want[1][pos] {
+			differ++
 		}
 	}
 	t.evals += int64(len(order))
 	t.distinct += int64(len(order))
-	ok := len(want) == len(out)
-	for i := 0; ok && i < len(want); i++ {
-		ok = want[i] == out[i]
-	}
-	if ok {
-		t.out[api+":kept"] += int64(len(want))
-		t.out[api+":dropped"] += int64(len(order) - len(want))
+	for _, r := range []c47Reading{byInterface, byHop} {
+		if !equalPaths(lists[r], out) {
+			continue
+		}
+		if differ == 0 {
+			t.out[api+":kept"] += int64(len(out))
+			t.out[api+":dropped"] += int64(len(order) - len(out))
+		} else {
+			t.out[api+":kept"] += int64(len(out))
+			t.out[api+":dropped"] += int64(len(order) - len(out))
+			t.out[api+":hop-and-interface-readings-differ:follows-"+r.String()] += differ
+			// remember one example of the difference (observation, not a violation)
+			for pos, i := range order {
+				if want[0][pos] != want[1][pos] {
+					c.mu.Lock()
+					ex := c47Example{Expr: desc, Path: set.paths[i].txt, Observed: fmt.Sprintf("kept=%v (%s reading)", want[r][pos], r),
+						Expected: fmt.Sprintf("per-hop reading kept=%v, per-interface reading kept=%v", want[byHop][pos], want[byInterface][pos])}
+					if old, ok := c.readingEx[api]; !ok || c47Less(ex, old) {
+						c.readingEx[api] = ex
+					}
+					c.mu.Unlock()
+					break
+				}
+			}
+		}
 		return
 	}
-	// classify: same multiset but different order / wrong set
-	wm, om := map[snet.Path]int{}, map[snet.Path]int{}
-	for _, p := range want {
-		wm[p]++
-	}
+	// violation: classify against the positions on which both readings agree
+	om := map[snet.Path]int{}
 	for _, p := range out {
 		om[p]++
 	}
-	same := len(wm) == len(om)
-	for p, n := range wm {
-		if om[p] != n {
-			same = false
+	ex := c47Example{Expr: desc, Observed: fmt.Sprintf("%d paths", len(out)),
+		Expected: fmt.Sprintf("%d paths (per-hop reading) or %d paths (per-interface reading), in input order", len(lists[byHop]), len(lists[byInterface]))}
+	occ := map[snet.Path]int{}
+	for _, i := range order {
+		occ[set.snet[i]]++
+	}
+	for pos, i := range order {
+		p := set.snet[i]
+		if want[0][pos] != want[1][pos] {
+			continue
+		}
+		wantN := 0
+		if want[0][pos] {
+			wantN = occ[p]
+		}
+		if om[p] != wantN {
+			ex.Path = set.paths[i].txt
+			ex.Observed = fmt.Sprintf("kept %d of %d occurrences", om[p], occ[p])
+			ex.Expected = fmt.Sprintf("kept=%v under both readings", want[0][pos])
+			c.finding(api+"/wrong-set-of-paths", ex)
+			return
 		}
 	}
-	ex := c47Example{Expr: desc, Observed: fmt.Sprintf("%d paths", len(out)), Expected: fmt.Sprintf("%d paths", len(want))}
-	if same {
+	for p := range om {
+		if occ[p] == 0 {
+			c.finding(api+"/output-contains-foreign-path", ex)
+			return
+		}
+	}
+	sameMulti := func(l []snet.Path) bool {
+		m := map[snet.Path]int{}
+		for _, p := range l {
+			m[p]++
+		}
+		if len(m) != len(om) {
+			return false
+		}
+		for p, n := range m {
+			if om[p] != n {
+				return false
+			}
+		}
+		return true
+	}
+	if sameMulti(lists[0]) || sameMulti(lists[1]) {
 		c.finding(api+"/output-order-differs-from-input-order", ex)
 		return
 	}
-	for _, i := range order {
-		p := set.snet[i]
-		if (om[p] > 0) != (wm[p] > 0) {
-			ex.Path = set.paths[i].txt
-			ex.Observed = fmt.Sprintf("kept=%v", om[p] > 0)
-			ex.Expected = fmt.Sprintf("kept=%v", wm[p] > 0)
-			break
-		}
-	}
-	c.finding(api+"/wrong-set-of-paths", ex)
+	c.finding(api+"/mixes-per-hop-and-per-interface-readings", ex)
 }
 
 func pick(set *c47Set, order []int) []snet.Path {
@@ -542,16 +600,21 @@ func pick(set *c47Set, order []int) []snet.Path {
 func (c *c47Ctx) familyACL(set *c47Set) {
 	plain := []*c47Pred{mkPred(1, ""), mkPred(2, ""), mkPred(1, "64512"), mkPred(1, "ff00:0:110"), mkPred(0, "64512"),
 		mkPred(2, "FF00:0:110"), mkPred(2, "0")}
-	withIf := []*c47Pred{mkPred(1, "ff00:0:110", 1), mkPred(1, "64512", 1, 2), mkPred(1, "ff00:0:110", 0, 2), mkPred(2, "ff00:0:110", 2, 0)}
+	// hop predicates with interfaces (A = 1-ff00:0:110, B = 1-64512, C = 2-ff00:0:110), every form: #if, #in,0, #0,out, #in,out,
+	// #0, #0,0, mixed with interface-free ones so that first-match order matters
+	mixed := []*c47Pred{mkPred(1, ""), mkPred(1, "ff00:0:110"), mkPred(2, "0"),
+		mkPred(1, "ff00:0:110", 1), mkPred(1, "ff00:0:110", 2), mkPred(1, "ff00:0:110", 1, 0), mkPred(1, "ff00:0:110", 0, 1),
+		mkPred(1, "ff00:0:110", 1, 2), mkPred(1, "ff00:0:110", 2, 2), mkPred(1, "ff00:0:110", 0), mkPred(1, "ff00:0:110", 0, 0),
+		mkPred(1, "64512", 2, 1), mkPred(1, "64512", 2, 0), mkPred(2, "ff00:0:110", 0, 2), mkPred(0, "ff00:0:110", 1), mkPred(1, "FF00:0:110", 2, 0)}
 	maxK := mc.Pick(2, 3)
 	orders := c47Orders(set)
 	type job struct {
 		entries []c47ACLEntry
 		def     string
-		model   bool
+		api     string
 	}
 	var jobs []job
-	gen := func(preds []*c47Pred, model bool, maxK int) {
+	gen := func(preds []*c47Pred, api string, maxK int) {
 		var cur []c47ACLEntry
 		var rec func(k int)
 		rec = func(k int) {
@@ -560,7 +623,7 @@ func (c *c47Ctx) familyACL(set *c47Set) {
 					continue // the long spellings of the default only on short lists
 				}
 				e := append(append([]c47ACLEntry(nil), cur...), c47ACLEntry{allow: def[0] == '+'})
-				jobs = append(jobs, job{e, def, model})
+				jobs = append(jobs, job{e, def, api})
 			}
 			if k == maxK {
 				return
@@ -575,9 +638,10 @@ func (c *c47Ctx) familyACL(set *c47Set) {
 		}
 		rec(0)
 	}
-	gen(plain, true, maxK)
-	gen(withIf, false, 2)
+	gen(plain, "ACL.Eval", maxK)
+	gen(mixed, "ACL.Eval(interface-predicates)", maxK)
 	c.r.Extra["ACLs"] = len(jobs)
+	// per-path verdicts of the reference do not depend on the list: compute once per ACL
 	mc.ParallelFor(len(jobs), func(ji int) {
 		if c.r.OutOfBudget() {
 			return
@@ -590,13 +654,11 @@ func (c *c47Ctx) familyACL(set *c47Set) {
 			c.finding("NewACL/rejects-valid-acl", c47Example{Expr: desc, Observed: err.Error(), Expected: "accepted"})
 			return
 		}
-		var single []bool
-		if !j.model {
-			// interface-level predicates: the statement only fixes "exactly the accepted inputs, in order";
-			// acceptance is taken from the filter applied to each path alone.
-			single = make([]bool, len(set.paths))
+		var verdict [2][]bool
+		for r := 0; r < 2; r++ {
+			verdict[r] = make([]bool, len(set.paths))
 			for i := range set.paths {
-				single[i] = len(acl.Eval([]snet.Path{set.snet[i]})) == 1
+				verdict[r][i] = c47ACLAccepts(j.entries, set.paths[i].hops, c47Reading(r))
 			}
 		}
 		for _, order := range orders {
@@ -605,19 +667,102 @@ func (c *c47Ctx) familyACL(set *c47Set) {
 				c.finding("ACL.Eval/panic", c47Example{Expr: desc, Observed: fmt.Sprint(p), Expected: "no panic"})
 				return
 			}
-			api := "acl"
-			if !j.model {
-				api = "acl-ifpred"
+			var want c47Want
+			for r := 0; r < 2; r++ {
+				want[r] = make([]bool, len(order))
+				for pos, i := range order {
+					want[r][pos] = verdict[r][i]
+				}
 			}
-			c.checkFilter(map[string]string{"acl": "ACL.Eval", "acl-ifpred": "ACL.Eval(interface-predicates)"}[api], desc, set, order, out,
-				func(i int) bool {
-					if j.model {
-						return c47ACLAccepts(j.entries, set.paths[i].hops)
-					}
-					return single[i]
-				}, t)
+			c.checkFilter(j.api, desc, set, order, out, want, t)
 		}
 	})
+}
+
+// ---- hop predicate text ----
+
+// c47PredAlphabet: the full hop predicate alphabet (also used by family H).
+func c47PredAlphabet() []*c47Pred {
+	var preds []*c47Pred
+	ifForms := [][]uint64{nil, {0}, {1}, {2}, {12}, {0, 0}, {1, 0}, {0, 1}, {1, 2}, {2, 1}, {0, 2}, {2, 0}, {12, 1}, {1, 12}}
+	asTexts := []string{"0", "64512", "ff00:0:110", "ff00:0:11", "FF00:0:110", "fF00:0:110", "0:0:fc00", "0:0:FC00"}
+	for _, isd := range []uint64{0, 1, 2, 12} {
+		preds = append(preds, mkPred(isd, ""))
+		for _, as := range asTexts {
+			for _, f := range ifForms {
+				preds = append(preds, mkPred(isd, as, f...))
+			}
+		}
+	}
+	return preds
+}
+
+// familyPredText: HopPredicateFromString / String / JSON / ACLEntry text forms keep the meaning of every predicate.
+func (c *c47Ctx) familyPredText() {
+	t := &c47Tally{out: map[string]int64{}}
+	defer c.merge(t)
+	for _, p := range c47PredAlphabet() {
+		text := p.text()
+		t.evals++
+		t.distinct++
+		hp, err := pathpol.HopPredicateFromString(text)
+		if err != nil {
+			if p.hasAS && p.as == 0 && (p.if1 != 0 || p.if2 != 0) {
+				t.out["predicate-text:interface-on-wildcard-AS-rejected"]++ // the statement does not say; either is accepted
+				continue
+			}
+			c.finding("HopPredicateFromString/rejects-valid-predicate", c47Example{Expr: text, Observed: err.Error(), Expected: "parsed"})
+			continue
+		}
+		if uint64(hp.ISD) != p.isd || uint64(hp.AS) != p.as {
+			c.finding("HopPredicateFromString/wrong-isd-as", c47Example{Expr: text, Observed: fmt.Sprintf("%d-%d", hp.ISD, uint64(hp.AS)),
+				Expected: fmt.Sprintf("%d-%d", p.isd, p.as)})
+			continue
+		}
+		check := func(via, printed string) bool {
+			q, ok := c47ParsePredText(printed)
+			if !ok || q.meaning() != p.meaning() {
+				got := "unparsable"
+				if ok {
+					got = q.meaning()
+				}
+				c.finding("HopPredicate/"+via+"-changes-meaning", c47Example{Expr: text, Observed: printed + " = " + got, Expected: p.meaning()})
+				return false
+			}
+			return true
+		}
+		ok := check("FromString-String", hp.String())
+		if b, err := json.Marshal(hp); err != nil {
+			c.finding("HopPredicate/json-marshal-error", c47Example{Expr: text, Observed: err.Error(), Expected: "marshals"})
+			ok = false
+		} else {
+			var hp2 pathpol.HopPredicate
+			if err := json.Unmarshal(b, &hp2); err != nil {
+				c.finding("HopPredicate/json-unmarshal-error", c47Example{Expr: text, Observed: string(b) + ": " + err.Error(), Expected: "unmarshals"})
+				ok = false
+			} else {
+				ok = check("json-roundtrip", hp2.String()) && ok
+			}
+		}
+		for _, act := range []string{"+ ", "- "} {
+			var ae pathpol.ACLEntry
+			if err := ae.LoadFromString(act + text); err != nil {
+				c.finding("ACLEntry.LoadFromString/rejects-valid-entry", c47Example{Expr: act + text, Observed: err.Error(), Expected: "parsed"})
+				ok = false
+				continue
+			}
+			printed := ae.String()
+			if !strings.HasPrefix(printed, act) {
+				c.finding("ACLEntry/action-changes", c47Example{Expr: act + text, Observed: printed, Expected: act + "..."})
+				ok = false
+				continue
+			}
+			ok = check("ACLEntry-text-roundtrip", strings.TrimPrefix(printed, act)) && ok
+		}
+		if ok {
+			t.out["predicate-text:meaning-kept"]++
+		}
+	}
 }
 
 // ---- policies ----
@@ -664,23 +809,27 @@ func (c *c47Ctx) familyPolicy(set *c47Set) {
 		{{allow: false, pred: mkPred(2, "")}, {allow: true}},
 		{{allow: true, pred: mkPred(1, "ff00:0:110")}, {allow: false, pred: mkPred(1, "")}, {allow: true}},
 		{{allow: false}},
+		// with interfaces: transit through A only when entered on 1; nothing may leave B on 2 towards ... (#2,0 = entering on 2)
+		{{allow: true, pred: mkPred(1, "ff00:0:110", 1, 0)}, {allow: false, pred: mkPred(1, "ff00:0:110")}, {allow: true}},
+		{{allow: false, pred: mkPred(1, "64512", 2)}, {allow: false, pred: mkPred(2, "ff00:0:110", 0, 1)}, {allow: true}},
 	}
 	seqs := []*c47Node{
 		cat(any, any),
 		cat(star, cat(hop(mkPred(1, "ff00:0:110")), star)),
 		cat(hop(mkPred(1, "")), cat(star, hop(mkPred(2, "0")))),
+		cat(star, cat(hop(mkPred(1, "ff00:0:110", 1, 0)), star)),
 	}
 	var tops, opts []c47FilterImpl
 	tops = append(tops, c.mkFilter(nil, nil))
-	for _, a := range acls[:2] {
-		tops = append(tops, c.mkFilter(a, nil))
+	for _, a := range []int{0, 1, 3, 4} {
+		tops = append(tops, c.mkFilter(acls[a], nil))
 	}
-	for _, s := range seqs {
+	for _, s := range seqs[:3] {
 		tops = append(tops, c.mkFilter(nil, s))
 	}
-	tops = append(tops, c.mkFilter(acls[0], seqs[1]), c.mkFilter(acls[1], seqs[0]))
+	tops = append(tops, c.mkFilter(acls[0], seqs[1]), c.mkFilter(acls[1], seqs[0]), c.mkFilter(acls[3], seqs[3]))
 	opts = append(opts, c.mkFilter(acls[0], nil), c.mkFilter(acls[2], nil), c.mkFilter(nil, seqs[0]), c.mkFilter(nil, seqs[1]),
-		c.mkFilter(acls[1], seqs[2]))
+		c.mkFilter(acls[1], seqs[2]), c.mkFilter(acls[3], nil), c.mkFilter(acls[4], nil))
 	type optSpec struct {
 		idx     []int
 		weights []int
@@ -754,14 +903,15 @@ func (c *c47Ctx) familyPolicy(set *c47Set) {
 				c.finding("Policy.Filter/panic", c47Example{Expr: desc, Observed: fmt.Sprint(p), Expected: "no panic"})
 				return
 			}
-			keptIdx := c47PolicyFilter(top.ref, refOpts, hopsOf(order))
-			// translate positions in the input list to "keep the k-th element of the list"
-			keepPos := map[int]bool{}
-			for _, k := range keptIdx {
-				keepPos[k] = true
+			var want c47Want
+			hops := hopsOf(order)
+			for r := 0; r < 2; r++ {
+				want[r] = make([]bool, len(order))
+				for _, k := range c47PolicyFilter(top.ref, refOpts, hops, c47Reading(r)) {
+					want[r][k] = true
+				}
 			}
-			pos := -1
-			c.checkFilter("Policy.Filter", desc, set, order, out, func(int) bool { pos++; return keepPos[pos] }, t)
+			c.checkFilter("Policy.Filter", desc, set, order, out, want, t)
 		}
 	})
 }
@@ -773,22 +923,26 @@ func TestC47(t *testing.T) {
 		"interfaces {1,2,12} (textual near-misses 1/12, ff00:0:11/ff00:0:110). S: all expression trees with <= 5 (6) nodes over 6 " +
 		"hop predicates and ? + * | juxtaposition, printed fully parenthesised and with minimal parentheses, against all paths with " +
 		"0,2,3 hops (thorough: 4 hops for <= 5 nodes) over 3 ISD-ASes x interfaces {1,2}. ACL: all lists of <= 2 (3) entries over 7 " +
-		"interface-free predicates x {+,-} + default, and <= 2 entries over 4 interface predicates; policies: 8 top filters x option " +
-		"lists (<= 2, thorough 3 options, all weight orders) over 5 option filters; each on two input orders (forward; reversed+forward " +
+		"interface-free predicates x {+,-} + default, and over 16 predicates of every form (ISD, ISD-AS, #if, #in,0, #0,out, #in,out, " +
+		"#0, #0,0, alternative AS spelling) x {+,-} + default; hop predicate text: every predicate of the H alphabet through " +
+		"HopPredicateFromString/String, JSON and ACLEntry text; policies: 11 top filters x option lists (<= 2, thorough 3 options, all " +
+		"weight orders) over 7 option filters, ACLs with interface predicates included; each on two input orders (forward; reversed+forward " +
 		"with every path twice). A case = (expression or filter, input path); non-trivial = path kept by reference or implementation, " +
 		"or some hop of it matched by some predicate of the expression"
 	r.Assumptions = []string{
 		"syntactically valid = accepted by antlr/Sequence.g4; AS numbers in expressions are decimal <= 2^32-1 or three hex groups of <= 4 digits",
 		"operator precedence in expressions with minimal parentheses is that of the grammar (postfix > '|' > juxtaposition, pinned by the " +
 			"repository test 'Or has higher priority than concatenation'); the fully parenthesised prints do not depend on it",
-		"ACL semantics is modelled only for predicates without interfaces (there hop and interface granularity coincide); for ACL entries " +
-			"with interfaces only 'output = inputs accepted one by one, in input order' is demanded",
+		"the hop predicate semantics of the statement is applied to ACL entries and policies as well; the UNIT an ACL entry is looked up " +
+			"for is ambiguous in PathPolicy.md (hop vs traversed interface), so the whole output list must equal the per-hop OR the " +
+			"per-interface reading (exact wherever both coincide, always so for predicates without interfaces); differences are counted",
+		"a hop predicate with an interface on a wildcard AS (e.g. 1-0#1) may be rejected by the parser",
 		"paths are hop lists whose interface list pairs consecutive interfaces of the same AS (as produced by the combinator)",
 		"all discrepancies on expressions that spell an AS differently from the path side (upper-case hex, hex form of an AS <= 2^32-1) " +
 			"are one root cause and reported as ONE finding",
 	}
 	c := &c47Ctx{r: r, found: map[string]c47Example{}, spelling: map[string]c47Example{}, spellN: map[string]int64{}, spellRef: map[string]c47Ref{},
-		tallies: map[string]int64{}, seen: map[string]bool{}}
+		tallies: map[string]int64{}, seen: map[string]bool{}, readingEx: map[string]c47Example{}}
 	phases := map[string]float64{}
 	last := time.Now()
 	phase := func(name string) { phases[name] = time.Since(last).Seconds(); last = time.Now() }
@@ -799,6 +953,7 @@ func TestC47(t *testing.T) {
 	phase("S")
 	ias := [][2]uint64{{1, 64512}, {1, 0xff00_0000_0110}, {2, 0xff00_0000_0110}}
 	fset := mkSet("F", c47Paths(ias, []uint64{1, 2}, []int{0, 2, 3}))
+	c.familyPredText()
 	c.familyACL(fset)
 	phase("ACL")
 	c.familyPolicy(fset)
@@ -823,6 +978,9 @@ func TestC47(t *testing.T) {
 	r.Sample(map[string]any{"expression": "(1 | (2-0)+)", "path": "2-ff00:0:110#0,1 2-ff00:0:110#1,0", "expected": "kept"})
 	r.Sample(map[string]any{"expression": "1-64512#1 0", "path": "1-64512#0,2 1-64512#1,0", "expected": "dropped (first hop leaves on 2)"})
 
+	if len(c.readingEx) > 0 {
+		r.Extra["acl_unit_readings_differ_examples"] = c.readingEx
+	}
 	fkeys := make([]string, 0, len(c.found))
 	for k := range c.found {
 		fkeys = append(fkeys, k)
